@@ -57,6 +57,10 @@ def _band_calls(fns, tier):
         ns += [420, 421, 511, 512, 513, 600, 699, 700]
     ops = []
     for n in ns:
+        for k in (1, 2, 5):
+            # few units at the neighbouring step counts first
+            for fn in fns:
+                ops.append(["call", fn, n + 1, k])
         for delta in (1, 2, 3, 4, 6):
             for fn in fns:
                 ops.append(["call", fn, n, n - delta])
